@@ -3,3 +3,4 @@ import Props.C05
 import Props.C08
 import Props.C09
 import Props.C18
+import Props.C06
